@@ -45,7 +45,7 @@ impl Property for C02 {
         "C02"
     }
     fn rule(&self) -> &'static str {
-        "profile `protocol`: expansion-style programs rich in C and X rows, both driver types (write_input overridden / defaulted), row values that in half of the cases need not fit the width of the signal they drive, >= 1 output-capable signal (one test in six: none at all - a pure stimulus whose rows report no outputs, where the mid-clock rows are known from their position in the expansion only), and a caller schedule (prefix length at which the iterator is dropped, 0-3 extra next() calls after None). Oracle: self-consistency between the recording driver's log and the items, measured as the log delta of every API call (constructor = one output-reading call with every input-capable signal at its default; Ok(row) = exactly one call, vector identical to row.inputs entry by entry, output-reading method iff row.outputs non-empty; None = zero calls, also afterwards; drop = zero calls; laziness: log length before the k-th next() = 1 + rows already returned), plus a closed formula for the number of mid-clock rows of loop-free programs. Non-trivial: trace has a mid-clock row or >= 3 rows, and the schedule has a post-None call or an early drop; distinct by source + signals + driver + schedule."
+        "profile `protocol`: expansion-style programs rich in C and X rows, both driver types (write_input overridden / defaulted), row values that in half of the cases need not fit the width of the signal they drive, >= 1 output-capable signal (one test in six: none at all - a pure stimulus whose rows report no outputs, where the mid-clock rows are known from their position in the expansion only), rows that repeat the row before them entry by entry (with or without one input turned into C; a quarter of the programs carry no tags, so that such rows are identical vectors), and a caller schedule (prefix length at which the iterator is dropped, 0-3 extra next() calls after None). Oracle: self-consistency between the recording driver's log and the items, measured as the log delta of every API call (constructor = one output-reading call with every input-capable signal at its default; Ok(row) = exactly one call, vector identical to row.inputs entry by entry, output-reading method iff row.outputs non-empty; None = zero calls, also afterwards; drop = zero calls; laziness: log length before the k-th next() = 1 + rows already returned), plus a closed formula for the number of mid-clock rows of loop-free programs. Non-trivial: trace has a mid-clock row or >= 3 rows, and the schedule has a post-None call or an early drop; distinct by source + signals + driver + schedule."
     }
     fn cases(&self, tier: Tier) -> u64 {
         match tier {
@@ -54,7 +54,7 @@ impl Property for C02 {
         }
     }
     fn required_classes(&self) -> Vec<&'static str> {
-        vec!["mid-clock-row", "early-drop", "post-none-calls", "overriding-driver", "defaulting-driver", "formula-checked", "ran-to-end", "driver-failure-inside-an-expansion", "pure-stimulus-test", "header>=65-columns"]
+        vec!["mid-clock-row", "early-drop", "post-none-calls", "overriding-driver", "defaulting-driver", "formula-checked", "ran-to-end", "driver-failure-inside-an-expansion", "pure-stimulus-test", "header>=65-columns", "malformed-answer-then-more-rows", "untagged-program"]
     }
     fn run(&self, s: &Streams) -> CaseOut {
         let mut out = CaseOut::new();
@@ -78,9 +78,14 @@ impl Property for C02 {
             cfg.max_virtual = 0;
             cfg.reads = false;
         }
+        // rows that repeat the row before them (with or without a clock added); in a quarter of
+        // the cases no tags are planted, so that such rows really are identical vectors
+        cfg.dup_rows = true;
+        let untagged = !pure_stimulus && dch.chance(1, 4);
+        out.class_if(untagged, "untagged-program");
         let mut built = gen_case(&mut Ch::new(&s[0]), &cfg);
         // tags: which source row is an item from, and where in its expansion does it sit?
-        let rows = instrument(&mut built, &mut Ch::new(&s[1]), 0, ProbePref::Vars, &[]);
+        let rows = if untagged { Default::default() } else { instrument(&mut built, &mut Ch::new(&s[1]), 0, ProbePref::Vars, &[]) };
         let text = built_text(&built);
         // no output-capable and no virtual signal: checkedness cannot be read off row.outputs
         let has_outs = built.sigs.iter().any(|s| s.is_output()) || !built.analysis.virtuals.is_empty();
@@ -323,17 +328,28 @@ impl Property for C02 {
             let pos = positions(&tags, &rows);
             let inner: Vec<usize> = (0..real.items.len()).filter(|i| matches!(pos[*i], Some((_, p)) if p >= 1)).collect();
             if !inner.is_empty() {
-                let k = inner[dch.upto(inner.len())];
+                let mut k = inner[dch.upto(inner.len())];
                 let mut fspec = spec.clone();
-                fspec.fail_at = Some(k + 1); // constructor = call 0, item k = call k + 1
+                // either the driver fails at that call, or (one time in three) its answer to the
+                // call of some checked item is malformed; the caller keeps iterating either way
+                let checked_items: Vec<usize> = (0..real.items.len()).filter(|i| matches!(&real.items[*i], RealItem::Row(r) if !r.outputs.is_empty())).collect();
+                let malformed = has_outs && !spec.layout.is_empty() && !checked_items.is_empty() && dch.chance(1, 3);
+                if malformed {
+                    k = checked_items[dch.upto(checked_items.len())];
+                    let p = dch.upto(8);
+                    fspec.deviate_at = Some((k + 1, if dch.chance(1, 2) { Deviation::Duplicate(p) } else { Deviation::Drop(p) }));
+                    out.class("malformed-answer-then-more-rows");
+                } else {
+                    fspec.fail_at = Some(k + 1); // constructor = call 0, item k = call k + 1
+                    out.class("driver-failure-inside-an-expansion");
+                }
                 let faulty = run_real(
                     &tc,
                     &built.sigs,
                     &fspec,
-                    &RunOpts { max_next: 400, continue_after_driver_error: true, fuel: fuel_for(t.facts.steps), ..Default::default() },
+                    &RunOpts { max_next: 400, continue_after_driver_error: true, continue_after_error: malformed, fuel: fuel_for(t.facts.steps), ..Default::default() },
                 );
-                out.class("driver-failure-inside-an-expansion");
-                out.put("fault", format!("driver fails at call {} (item {k}), caller keeps iterating", k + 1));
+                out.put("fault", format!("{} at call {} (item {k}), caller keeps iterating", if malformed { "malformed answer" } else { "driver fails" }, k + 1));
                 for (i, item) in faulty.items.iter().enumerate() {
                     let before = faulty.log_len_before[i];
                     let after = faulty.log_len_before.get(i + 1).copied().unwrap_or(faulty.log.len());
@@ -354,6 +370,9 @@ impl Property for C02 {
                             out.fail(p.key(), format!("next() #{i} panicked after a driver failure: {p}"));
                             return out;
                         }
+                        // the item that got the malformed answer (a program that reads the
+                        // dropped output later may fail again: the comparison ends there)
+                        RealItem::RuntimeErr(_) if malformed && i == k && after - before == 1 => {}
                         RealItem::RuntimeErr(_) => break,
                     }
                 }
